@@ -38,7 +38,7 @@ func (g *Grammar) tokenValue(t Tok) any {
 
 func (g *Grammar) eval(e *wl.Expr, rhs []stackEnt) (any, error) {
 	switch e.Op {
-	case 'k':
+	case 'k', 'g':
 		return e.K, nil
 	case 'q':
 		return e.S, nil
